@@ -13,6 +13,14 @@ import (
 )
 
 func (fv *FuncVC) buildQuery(o *Obligation) string {
+	return fv.buildQueryOpt(o, false)
+}
+
+// buildQueryOpt with dropQuant leaves out every quantified assumption: the
+// query is then weaker (a sat answer is only a candidate counterexample, to
+// be confirmed by replaying it on the real code), but solvers that answer
+// unknown in the presence of quantifiers can produce a model for it.
+func (fv *FuncVC) buildQueryOpt(o *Obligation, dropQuant bool) string {
 	var sb strings.Builder
 	sb.WriteString("(set-logic ALL)\n")
 	for _, d := range fv.sortDecls {
@@ -23,7 +31,19 @@ func (fv *FuncVC) buildQuery(o *Obligation) string {
 		sb.WriteString(d)
 		sb.WriteByte('\n')
 	}
-	for _, a := range fv.asserts[:o.NAssert] {
+	var anc map[int]bool
+	if o.Anc != nil {
+		anc = o.Anc
+	} else if o.Block >= 0 && !o.Probe {
+		anc = fv.ancestors(fv.Fn.Blocks[o.Block])
+	}
+	for i, a := range fv.asserts[:o.NAssert] {
+		if anc != nil && fv.assertBlk[i] >= 0 && !anc[fv.assertBlk[i]] {
+			continue // emitted on a path that cannot reach this obligation
+		}
+		if dropQuant && (strings.Contains(a, "(forall ") || strings.Contains(a, "(exists ")) {
+			continue
+		}
 		sb.WriteString("(assert ")
 		sb.WriteString(a)
 		sb.WriteString(")\n")
@@ -107,6 +127,15 @@ func discharge(fvs []*FuncVC, cfg RunConfig) {
 				if res.Verdict == VUnknown && !j.o.Probe {
 					// one retry with a larger budget
 					res, err = solve(q, cfg.TimeoutS*3, cfg.All, !usesZ3Only(q))
+				}
+				if res.Verdict == VUnknown && !j.o.Probe && err == nil {
+					// candidate counterexample for the replay
+					q2 := j.fv.buildQueryOpt(j.o, true)
+					if r2, e2 := solve(q2, cfg.TimeoutS, false, !usesZ3Only(q2)); e2 == nil && r2.Verdict == VSat {
+						res.Output = r2.Output
+						res.All["candidate-model(without quantified assumptions)"] = r2.Solver
+						j.o.candidate = true
+					}
 				}
 				j.o.Res = res
 				switch {
